@@ -89,6 +89,10 @@ def verify_function(prog, db, q, contract, case=None):
                     env[p] = None
                 elif cv == 'int':
                     env[p] = fresh_scalar(INT, p)
+                elif cv == 'pair':
+                    env[p] = (fresh_scalar(INT, p + '_lo'), fresh_scalar(INT, p + '_hi'))
+                elif cv == 'triple':
+                    env[p] = (fresh_scalar(INT, p + '_a'), fresh_scalar(INT, p + '_b'), fresh_scalar(INT, p + '_c'))
                 elif cv == 'empty_dict':
                     env[p] = st.alloc(SDict(SSet.empty(), lambda k: None), 'param')
                     ex.frame_roots[env[p].oid] = p
